@@ -16,7 +16,7 @@ LEVEL = "exploration"
 RULE = (
     "Three parts. (1) Exhaustive box: every single pattern tree with <= 2 leaves over {a, b, .} with one of {none,?,*,+} on "
     "every node (1164 patterns) x every required list of length <= 2 over {a, b, x} (x is named by no pattern) x "
-    "depth_limit in {0,1,2} x symbol_priority in {[], [b, a]}; coverage.exhaustive refers to "
+    "depth_limit in {0,1,2} x symbol_priority in {[]} (quick) / {[], [b, a]} (thorough); coverage.exhaustive refers to "
     "exactly this box. (2) Hypothesis: required lists of length 0..3 over three names plus an unnamed symbol, 1..3 "
     "patterns of 1..5 leaves each (same tree generator as C18: '$' only where nothing mandatory follows, random "
     "whitespace / redundant parentheses), depth_limit 0..4, symbol_priority empty or up to three distinct symbols "
@@ -443,7 +443,7 @@ def run_shard(spec, ctx):
 
         pats = list(P18.enum_asts(1)) + list(P18.enum_asts(2))
         reqs = [r for m in range(3) for r in itertools.product(BOX_REQ_SYMS, repeat=m)]
-        prios = [[], ["b", "a"]]
+        prios = ctx.pick([[]], [[], ["b", "a"]])
         complete = True
         for i, tree in enumerate(pats):
             if i % n != k:
@@ -496,7 +496,7 @@ def run_shard(spec, ctx):
                    {"part": "generated", "required": list(required), "patterns": texts, "depth_limit": depth,
                     "symbol_priority": prio})
 
-        run_given(generated_cases(), body, ctx, ctx.pick(1000, 19000))
+        run_given(generated_cases(), body, ctx, ctx.pick(600, 8000))
 
 
 def replay(data, col):
